@@ -11,7 +11,7 @@ use std::collections::BTreeMap;
 use std::hash::{Hash, Hasher};
 use std::sync::atomic::{AtomicU64, Ordering};
 
-pub const CUSTOM_KEYS: [&str; 5] = ["a", "q\"\\\n", "\u{1d11e}clef", "\u{043a}\u{043b}\u{044e}\u{0447}", "a b"];
+pub const CUSTOM_KEYS: [&str; 7] = ["a", "q\"\\\n", "\u{1d11e}clef", "\u{043a}\u{043b}\u{044e}\u{0447}", "a b", " ", "\u{00a0}\t"];
 pub const TYPED_KEYS: [&str; 7] = ["aud", "sub", "iss", "jti", "exp", "nbf", "iat"];
 
 /// the value alphabet: (how it is handed to the constructor, the JSON it must come back as)
@@ -38,6 +38,8 @@ pub fn value_alphabet() -> Vec<(Value, Form)> {
         // the claim key when the claim is constructed): the builder wraps claims as {key: value} internally
         (json!({"$KEY": "inner"}), Form::TupleStr),
         (json!({"$KEY": {"$KEY": [1]}}), Form::TupleStr),
+        // an application-defined claim type serialising as {"exp": <value>} under another key
+        (json!("2999-01-01T00:00:00Z"), Form::ForeignOneField),
     ]
 }
 
